@@ -150,7 +150,11 @@ def gen_trace(rng, mode):
             tr += rx_packet(rng, token(SETUP), speed, fv(), gaps) + gap()
         elif r < 0.25:      # unrelated packet between token and data
             tr += rx_packet(rng, junk_packet(rng), speed, fv(), gaps) + gap()
-        elif r < 0.40:      # over-long data stage (valid setup packet + extra bytes), then the real one after a new token
+        elif r < 0.32:      # data stage cut off (bare PID ... one CRC byte missing), then the real transaction after a new token
+            full = data(rand_payload(rng, 8), pid=rng.choice([DATA0, DATA1]))
+            tr += rx_packet(rng, full[:rng.choice([1, 1, 2, 3, rng.randint(1, 10)])], speed, fv(), gaps) + idle(rng.choice([14, 16]), speed)
+            tr += rx_packet(rng, token(SETUP), speed, fv(), gaps) + gap()
+        elif r < 0.45:      # over-long data stage (valid setup packet + extra bytes), then the real one after a new token
             tr += rx_packet(rng, overlong_packet(rng), speed, fv(), gaps) + idle(rng.choice([14, 16]), speed)
             tr += rx_packet(rng, token(SETUP), speed, fv(), gaps) + gap()
         tr += rx_packet(rng, data(rand_payload(rng, 8), pid=rng.choice([DATA0, DATA0, DATA1])), speed, fv(), gaps)
@@ -196,6 +200,15 @@ def directed(rng):
         for c in cuts:
             out.append(idle(1, speed) + pk(c) + idle(rng.choice([1, 2, 3]), speed)
                        + pk(token(SETUP)) + idle(2, speed) + pk(good) + tail)
+        # the DATA STAGE itself is cut off: SETUP token followed by a data packet truncated at every length (bare PID, PID + 1 byte,
+        # ... , one CRC byte missing), straight after reset and after a complete valid SETUP transaction (stale CRC registers
+        # equal); never a setup request, no ACK; a following complete transaction is reported
+        for pre in ([], pk(token(SETUP)) + idle(2, speed) + pk(good) + tail):
+            for pid in (DATA0, DATA1):
+                full = data(REF_SETUP, pid=pid)
+                for k in range(1, len(full)):
+                    out.append(idle(1, speed) + pre + pk(token(SETUP)) + idle(2, speed) + pk(full[:k]) + tail
+                               + (pk(token(SETUP)) + idle(2, speed) + pk(good) + tail if k % 3 == 1 else []))
     return out
 
 
@@ -228,7 +241,11 @@ def sweeps(tier):
              "high speed: SETUP token + a complete valid setup data packet followed by 1..4 copies of each of the 256 byte values"),
             ("abort_then_setup_hs", "sweep_abort_then_setup 0", 10,
              "high speed: a packet aborted after PID+1 byte (OUT, SETUP), any single byte, or IN+2 equal bytes, for all 256 byte values, "
-             "directly before a valid SETUP transaction")] + \
+             "directly before a valid SETUP transaction"),
+            ("setup_runt_hs", "sweep_setup_runt 0", 6,
+             "high speed: SETUP token + a packet consisting of a bare PID byte (all 16 PIDs) or PID + one byte, straight after reset and "
+             "after a complete valid SETUP transaction"),
+            ("setup_runt_fs", "sweep_setup_runt 1", 6, "full speed: the same")] + \
            ([("setup_bytes_fs", "sweep_setup_byte 1", 11, "full speed: same byte sweep, incl. the delayed ACK")]
             if tier != "quick" else [])
 
